@@ -81,6 +81,10 @@ def removeConsolidate (f : Forest) (prev next : Option Nat) : Forest × Bool :=
 /-- `add_consolidate_text_nodes(node, prev, next)`. -/
 def addConsolidate (f : Forest) (node : Nat) (prev next : Option Nat) : Forest × Bool :=
   if !f.consolidation then (f, false) else
+  -- consolidating the place the node comes from may already have brought it to the requested
+  -- place: its neighbours there are its own siblings then (xot eccbbb7)
+  let prev := if prev == some node then f.prevSibling node else prev
+  let next := if next == some node then f.nextSibling node else next
   match f.textOf node with
   | none => (f, false)
   | some added =>
